@@ -90,16 +90,33 @@ def impl(c):
         eb, mb = REALS[c["dt"]]
         return guarded(lambda: bytes(var.encode_raw(bits_to_float(c["bits"], eb, mb))))
     if k == "dec":
-        def f():
-            r = var.decode_raw(bytes(c["bs"]))
+        def conv(r):
             if isinstance(r, float):
                 eb, mb = REALS[c["dt"]]
                 return [float_to_bits(r, eb, mb)]
             return canon_value(r)
+        def f():
+            bs = bytes(c["bs"])
+            if c.get("buf") != "bytearray":
+                return conv(var.decode_raw(bs))
+            # the caller's buffer is a bytearray (as the SDO layers hand it over): decoding must not change it,
+            # and decoding it again must give the same
+            buf = bytearray(bs)
+            r = conv(var.decode_raw(buf))
+            if bytes(buf) != bs:
+                raise RuntimeError(f"decode_raw changed the caller's buffer to {bytes(buf).hex()}")
+            r2 = conv(var.decode_raw(buf))
+            if r2 != r or bytes(buf) != bs:
+                raise RuntimeError(f"second decode of the same buffer gives {r2!r}, the first gave {r!r}")
+            return r
         return guarded(f)
     if k == "dec_enc":
         def f():
-            r = var.decode_raw(bytes(c["bs"]))
+            bs = bytes(c["bs"])
+            buf = bytearray(bs) if c.get("buf") == "bytearray" else bs
+            r = var.decode_raw(buf)
+            if bytes(buf) != bs:
+                raise RuntimeError(f"decode_raw changed the caller's buffer to {bytes(buf).hex()}")
             return [canon_value(r), bytes(var.encode_raw(r))]
         return guarded(f)
     if k == "str_rt":
@@ -369,6 +386,10 @@ def gen_cases(rng, tier):
             elif r < 0.9: lim = [lo, hi]
             else: lim = [rng.randint(lo, hi), None]
             c["lim"] = lim
+    # half of the decodes get the bytes in a bytearray
+    for c in cases:
+        if c["kind"] in ("dec", "dec_enc") and rng.random() < 0.5:
+            c["buf"] = "bytearray"
     return cases
 
 
